@@ -1,3 +1,3 @@
 From Coq Require Import Extraction ExtrOcamlBasic.
-From CyVerif Require Import Lib.CInt Model.M_EvalOrder.
-Extraction "../ocaml/gen/m_evalorder.ml" ex_keep run_stmt ref_run mk_flags.
+From CyVerif Require Import Lib.CInt Model.M_CCallMap Model.M_EvalOrder.
+Extraction "../ocaml/gen/m_evalorder.ml" ex_keep run_stmt ref_run mk_flags mk_flags8 stmt_rejected ccmap bsimple tsimple.
